@@ -40,7 +40,7 @@ Theorem defines_are_lines w rom ds prog :
 Proof.
   rewrite (define_is_assign w rom ds (dec_lits ds) eof_token prog (dec_lits_closed w ds)).
   unfold assemble_program, define_lines. destruct (initial_resolver w _); try reflexivity.
-  rewrite (code_gen_assigns_fi w eof_token ds (dec_lits ds) prog). reflexivity.
+  rewrite (code_gen_assigns_fi w eof_token ds (dec_lits ds) prog), (code_gen_site_assigns_fi w eof_token ds (dec_lits ds) prog). reflexivity.
 Qed.
 
 Lemma text_rel_same r : match r with AScanError _ _ | AParseError _ => False | _ => True end -> text_rel same_bl r r.
